@@ -1,5 +1,6 @@
 import NeumannModel.Common.Proto
 import NeumannModel.Gossip.Model
+import NeumannModel.Gossip.Hlc
 /-
   Line-protocol driver for the gossip membership model (C17).
   Replicas 0..3 (plain `LWWMembershipState`), managers 0..3 (`GossipMembershipManager`),
@@ -23,6 +24,9 @@ import NeumannModel.Gossip.Model
                                            t0 = 1: suspicion_timeout_ms = 0, every other pending suspicion
                                            expires too
                                            -> <out> | rej=.. own=.. sus=.. | <view>
+    hlc_now last logical node phys         HybridLogicalClock in state (last_wall_ms, logical, node_id_hash),
+    hlc_recv last logical node phys rw rl rn   wall_with_drift() reading phys; u64 arithmetic (B = 2^64-1)
+                                           -> <wall>:<logical>:<node> <last'> <logical'>   (answer, new state)
   <out>   = `-` or the message handed to the transport: sync/<sender>/<time>/<batch>, alive/<m>/<inc>,
             suspect/<m>/<inc>
   <batch> = `-` or `m:h:ts:inc;m:h:ts:inc;..`, h ∈ H D F U
@@ -192,4 +196,22 @@ def gossipStep (d : DState) (line : String) : DState × String :=
     | _, _, _, _ => bad
   | _ => bad
 
-def main : IO Unit := run gossipStep dInit
+def u64Max : Nat := 2^64 - 1
+
+def showHlc (x : Hlc.Clock × Hlc.Ts) : String :=
+  s!"{x.2.wall}:{x.2.logical}:{x.2.node} {x.1.last} {x.1.logical}"
+
+def hlcStep (ws : List String) : Option String :=
+  match ws.mapM (·.toNat?) with
+  | some [last, lg, node, phys] => some (showHlc ((Hlc.Clock.mk last lg node).nowSat u64Max phys))
+  | some [last, lg, node, phys, rw, rl, rn] =>
+    some (showHlc ((Hlc.Clock.mk last lg node).receiveSat u64Max phys ⟨rw, rl, rn⟩))
+  | _ => none
+
+def topStep (d : DState) (line : String) : DState × String :=
+  match words line with
+  | "hlc_now" :: ws => if ws.length = 4 then (d, (hlcStep ws).getD "bad-op") else (d, "bad-op")
+  | "hlc_recv" :: ws => if ws.length = 7 then (d, (hlcStep ws).getD "bad-op") else (d, "bad-op")
+  | _ => gossipStep d line
+
+def main : IO Unit := run topStep dInit
